@@ -60,6 +60,7 @@ def run_variant(args):
 
 
 EXPECT_UNDECIDED = {}
+PATCH_MUTANTS = {}      # id -> True when a broken variant may also be reported as undecided (never silent)
 
 
 def jobs_for(props, all_props):
@@ -77,6 +78,18 @@ def jobs_for(props, all_props):
                 if os.path.exists(ef):
                     import json
                     EXPECT_UNDECIDED[f'rw-patch-{d}'] = set(json.load(open(ef)).get('undecided', []))
+    mdir = os.path.join(VERIF, 'mutants')
+    if os.path.isdir(mdir):
+        import json
+        for d in sorted(os.listdir(mdir)):
+            pf = os.path.join(mdir, d, 'patch.diff')
+            ef = os.path.join(mdir, d, 'expect.json')
+            if os.path.exists(pf) and os.path.exists(ef):
+                ex = json.load(open(ef))
+                ps = [p for p in ex.get('props', []) if p in props]
+                if ps:
+                    jobs.append((f'mu-patch-{d}', [('@patch', pf)], ps))
+                    PATCH_MUTANTS[f'mu-patch-{d}'] = bool(ex.get('allow_undecided'))
     for vid, rel, old, new, expect in corpus.MUTANTS:
         ps = [p for p in expect if p in props]
         if ps:
@@ -93,7 +106,7 @@ def run(prop, mod=None, workers=None):
     failures = []
     tally = {'rewrites_run': 0, 'rewrites_silent': 0, 'mutants_run': 0, 'mutants_refuted': 0, 'skipped': 0}
     detail = []
-    mut_ids = {m[0] for m in corpus.MUTANTS}
+    mut_ids = {m[0] for m in corpus.MUTANTS} | set(PATCH_MUTANTS)
     for vid, status, err, out in results:
         if status == 'skipped':
             tally['skipped'] += 1
@@ -105,6 +118,8 @@ def run(prop, mod=None, workers=None):
                 tally['mutants_run'] += 1
                 if code == 1:
                     tally['mutants_refuted'] += 1
+                elif code == 2 and PATCH_MUTANTS.get(vid):
+                    tally['mutants_undecided_documented'] = tally.get('mutants_undecided_documented', 0) + 1
                 else:
                     failures.append(f'mutant {vid} not refuted by {p} (exit {code}) {first}')
             else:
